@@ -218,6 +218,9 @@ func (server *Server) ZRange(conn *redis.Conn, key string, start int, stop int, 
 	if err != nil {
 		return nil, err
 	}
+	if !db.HasRecord(key) {
+		return redis.NewArrayMessage(), nil
+	}
 	_, zset, err := db.GetZSetRecord(key)
 	if err != nil {
 		return nil, err
@@ -238,6 +241,9 @@ func (server *Server) ZRangeByScore(conn *redis.Conn, key string, start float64,
 	db, err := server.GetDatabase(conn.Database())
 	if err != nil {
 		return nil, err
+	}
+	if !db.HasRecord(key) {
+		return redis.NewArrayMessage(), nil
 	}
 	_, zset, err := db.GetZSetRecord(key)
 	if err != nil {
@@ -260,6 +266,9 @@ func (server *Server) ZRem(conn *redis.Conn, key string, members []string) (*red
 	if err != nil {
 		return nil, err
 	}
+	if !db.HasRecord(key) {
+		return redis.NewIntegerMessage(0), nil
+	}
 	_, zset, err := db.GetZSetRecord(key)
 	if err != nil {
 		return nil, err
@@ -271,6 +280,9 @@ func (server *Server) ZScore(conn *redis.Conn, key string, member string) (*redi
 	db, err := server.GetDatabase(conn.Database())
 	if err != nil {
 		return nil, err
+	}
+	if !db.HasRecord(key) {
+		return redis.NewNilMessage(), nil
 	}
 	_, zset, err := db.GetZSetRecord(key)
 	if err != nil {
